@@ -157,6 +157,17 @@ def _run_point(case, ctx):
         _same(ctx, "json-parse", ref, isotherm_from_json(ref.to_json()), spec)
     except Exception as exc:
         ctx.violation("identity/json-parse-raises", "JSON export/parse raised", exc=exc, spec=spec)
+    # parse of the CSV / AIF export of an isotherm whose data carry information down to the 8th decimal (what the identifier resolves)
+    s8 = gen.point_spec(r, n=r.randint(3, 12), units=None, two_branches=False, extras=False, meta={}, decimals=8)
+    s8["pressure"] = [round(x + 3e-7, 8) for x in s8["pressure"]]
+    try:
+        from pygaps.parsing.aif import isotherm_from_aif
+        from pygaps.parsing.csv import isotherm_from_csv
+        ref8 = gen.build_point(s8, "lists")
+        _same(ctx, "csv-parse", ref8, isotherm_from_csv(ref8.to_csv()), s8)
+        _same(ctx, "aif-parse", ref8, isotherm_from_aif(ref8.to_aif()), s8)
+    except Exception as exc:
+        ctx.violation("identity/text-export-parse-raises", "CSV / AIF export/parse raised", exc=exc, spec=s8)
     # reconstructed copy
     _same(ctx, "copy-via-to_dict", ref, gen.copy_point(ref), spec)
     # below-threshold perturbation (data have 4 decimals)
